@@ -189,6 +189,43 @@ def _even_key_components(key):
     return out
 
 
+def _mode_typed_positions_used_raw(f, node):
+    """uses of a value derived from the q / 1-q site as a position into a `.data` container, outside any `if <mode test>`"""
+    st = node
+    while st is not None and not isinstance(st, ast.stmt):
+        st = getattr(st, "_parent", None)
+    if not (isinstance(st, ast.Assign) and isinstance(st.targets[0], ast.Name)):
+        return []
+
+    def in_mode_switch(x):
+        p = getattr(x, "_parent", None)
+        while p is not None and p is not f.node:
+            if isinstance(p, (ast.If, ast.IfExp)) and parity.mode_test(p.test, FLAGS) is not None:
+                return True
+            p = getattr(p, "_parent", None)
+        return False
+    tainted = {st.targets[0].id}
+    changed = True
+    while changed:
+        changed = False
+        for x in walk_shallow(f.node):
+            if isinstance(x, ast.Assign) and len(x.targets) == 1 and isinstance(x.targets[0], ast.Name) and x.targets[0].id not in tainted \
+                    and not in_mode_switch(x) and any(isinstance(y, ast.Name) and y.id in tainted for y in ast.walk(x.value)):
+                tainted.add(x.targets[0].id)
+                changed = True
+    bad = []
+    for x in walk_shallow(f.node):
+        idx = None
+        if isinstance(x, ast.Subscript) and isinstance(x.value, ast.Attribute) and x.value.attr == "data":
+            idx = [x.slice]
+        elif isinstance(x, ast.Call) and isinstance(x.func, ast.Attribute) and x.func.attr in ("islice", "pop", "__getitem__") \
+                and isinstance(x.func.value, ast.Attribute) and x.func.value.attr == "data":
+            idx = list(x.args)
+        if idx and not in_mode_switch(x) and any(isinstance(y, ast.Name) and y.id in tainted for a in idx for y in ast.walk(a)):
+            bad.append(x)
+    return bad
+
+
 def classify(ctx, f, node):
     """Returns (shape, ok, detail) for a mode-dependent construct; shape None = not understood."""
     par = getattr(node, "_parent", None)
@@ -325,6 +362,14 @@ def run(ctx, rep, tier="quick"):
         rep.put(ok, "S1", "parity", f"{construct}: {shape}", f, node, detail,
                 f"{shape} site is not invariant under (mode, metric) -> (other mode, -metric): {detail}. Running with mode 'max' on negated "
                 "metrics takes different decisions than mode 'min' on the original ones")
+        if shape == "q/1-q" and ok:
+            # everything computed from the mode-dependent q (virtual index, integer index, fractional part) counts positions in
+            # ASCENDING order; the entry list is kept best-first (ascending for min, descending for max).  Such a value may address
+            # the entry list only inside a mode switch (where both arms translate it) - not directly.
+            bad = _mode_typed_positions_used_raw(f, node)
+            rep.put(not bad, "S1", "parity", f"{construct}: positions derived from q address the entry list only inside a mode switch", f,
+                    bad[0] if bad else node, "", f"`{U(bad[0])[:60] if bad else ''}` indexes the best-first entry list with an ascending-order position "
+                    "outside any mode switch: right for 'min', mirrored for 'max'")
         if shape == "SIGN" and ok:
             # where is the sign stored, and is every use a product?
             st = node
